@@ -148,7 +148,13 @@ def run(ck, P):
         rg = [e for e in evs if e.kind == "call" and e.callee == "m_mod_src_register_tmr"]
         if not (st.get("mod->tb.rate") == 0 and st.get("mod->tb.burst") == U64MAX and st.get("mod->tb.tokens") == U64MAX and ms and not rg):
             bad = path
-    ck.ob("C18.4-OFF", tb.site("rate 0"), bad is None and n > 0, "%d rate-0 path(s) restore the unlimited bucket and register no timer" % n,
+        # switching the bucket off must also remove its refill timer when one is registered
+        dr_ = [e for e in evs if e.kind == "call" and e.callee == "m_mod_src_deregister_tmr" and S(e.args[1]) == "&mod->tb.timer"]
+        had = a.get("mod->tb.timer.ns")
+        if had is None or (had is True and not dr_) or (dr_ and ms and evs.index(dr_[0]) > evs.index(ms[0])):
+            bad = path
+    ck.ob("C18.4-OFF", tb.site("rate 0"), bad is None and n > 0, "%d rate-0 path(s) restore the unlimited bucket, remove a registered refill timer first and register none" % n if bad is None else
+          "a rate-0 path leaves the bucket's refill timer registered (or forgets its key first): a later re-enable adds a second timer and the bucket refills at r1 + r2",
           path=rules.fmt_path(tb, bad) if bad else None)
     reset_obligations(ck, P, X, "C18.4-OFF", scalar_fields=[("mod->tb.rate", 0), ("mod->tb.burst", U64MAX), ("mod->tb.tokens", U64MAX)],
                       memset_fields=["mod->tb.timer"])
